@@ -1,6 +1,172 @@
-/- C02 — property theorems.  Stub. -/
-import CBV.Model.C02
+/-
+C02 — property theorems.  On M-PROP° (lean/CBV/Model/C02.lean), for every adjacency (= every iteration
+order of the neighbour sets), every set of initially defined (chopped) axes and every number of blocks:
+the propagation loop terminates within the fuel the model gives it, ends `ok` exactly when every axis is
+reachable from a chopped one (then every axis is defined), ends `undefined` otherwise, and the outcome
+does not depend on the iteration order.  On the faithful model M-PROP: the count every edge of a family
+receives is the chop's total, whatever the schedule (`T_C02_count_schedule_free`).
+-/
+import CBV.Lemmas.C02Term
+import CBV.Props.C01
 
-namespace CBV.C02
+namespace CBV.Prop0
 
-end CBV.C02
+/-- the propagation as `BlockList.propagate_gradings` starts it: all blocks on the work-list -/
+def propagate (inp : Inp) (src : Def) : Def × Outcome :=
+  loop inp (4 * inp.nBlocks + 1) src (List.range inp.nBlocks)
+
+/-- termination: the unbounded `while` loop never needs more than 4·|blocks|+1 passes -/
+theorem T_C02_terminates (inp : Inp) (src : Def) : (propagate inp src).2 ≠ .outOfFuel :=
+  loop_terminates inp src
+
+theorem off_init (inp : Inp) (d : Def) : Off inp d (List.range inp.nBlocks) := by
+  intro b hb hnb; exact absurd (List.mem_range.mpr hb) hnb
+
+/-- completeness / soundness of the outcome -/
+theorem T_C02_outcome (inp : Inp) (wf : WF inp) (src : Def) :
+    match (propagate inp src).2 with
+    | .ok => ∀ b, b < inp.nBlocks → ∀ a ∈ axesOf b, Reach inp src a ∧ a ∈ (propagate inp src).1
+    | .undefined => ∃ b, b < inp.nBlocks ∧ ∃ a ∈ axesOf b, ¬ Reach inp src a
+    | .outOfFuel => True :=
+  loop_result inp wf src _ src _ (fun _ h => h) (fun x hx => Reach.base hx) (off_init inp src)
+    (fun b hb => List.mem_range.mp hb)
+
+/-- every family contains a chopped axis ⇒ the loop ends `ok` (and every axis is defined) -/
+theorem T_C02_wellposed (inp : Inp) (wf : WF inp) (src : Def)
+    (h : ∀ b, b < inp.nBlocks → ∀ a ∈ axesOf b, Reach inp src a) : (propagate inp src).2 = .ok := by
+  have h1 := T_C02_outcome inp wf src
+  have h2 := T_C02_terminates inp src
+  cases hc : (propagate inp src).2 with
+  | ok => rfl
+  | outOfFuel => exact absurd hc h2
+  | undefined =>
+    rw [hc] at h1
+    obtain ⟨b, hb, a, ha, hn⟩ := h1
+    exact absurd (h b hb a ha) hn
+
+/-- some family has no chop ⇒ the loop ends `undefined` (never loops, never reports `ok`) -/
+theorem T_C02_underspecified (inp : Inp) (wf : WF inp) (src : Def) (b a : Nat) (hb : b < inp.nBlocks)
+    (ha : a ∈ axesOf b) (hn : ¬ Reach inp src a) : (propagate inp src).2 = .undefined := by
+  have h1 := T_C02_outcome inp wf src
+  have h2 := T_C02_terminates inp src
+  cases hc : (propagate inp src).2 with
+  | undefined => rfl
+  | outOfFuel => exact absurd hc h2
+  | ok =>
+    rw [hc] at h1
+    exact absurd (h1 b hb a ha).1 hn
+
+theorem reach_congr (inp inp' : Inp) (h : ∀ a n, n ∈ inp.adj a → n ∈ inp'.adj a) (src : Def) (x : Nat)
+    (hr : Reach inp src x) : Reach inp' src x := by
+  induction hr with
+  | base hs => exact Reach.base hs
+  | step hn _ ih => exact Reach.step (h _ _ hn) ih
+
+/-- order independence: two adjacency functions that list the same neighbours in different orders
+    (any iteration order of the neighbour sets) give the same outcome -/
+theorem T_C02_order_free (inp inp' : Inp) (wf : WF inp) (wf' : WF inp') (hn : inp.nBlocks = inp'.nBlocks)
+    (hadj : ∀ a n, n ∈ inp.adj a ↔ n ∈ inp'.adj a) (src : Def) :
+    (propagate inp src).2 = (propagate inp' src).2 := by
+  by_cases hall : ∀ b, b < inp.nBlocks → ∀ a ∈ axesOf b, Reach inp src a
+  · rw [T_C02_wellposed inp wf src hall]
+    symm
+    apply T_C02_wellposed inp' wf' src
+    intro b hb a ha
+    exact reach_congr inp inp' (fun a n h => (hadj a n).mp h) src a (hall b (hn ▸ hb) a ha)
+  · have : ∃ b, b < inp.nBlocks ∧ ∃ a ∈ axesOf b, ¬ Reach inp src a := by
+      apply Classical.byContradiction
+      intro hne
+      apply hall
+      intro b hb a ha
+      apply Classical.byContradiction
+      intro hr
+      exact hne ⟨b, hb, a, ha, hr⟩
+    obtain ⟨b, hb, a, ha, hr⟩ := this
+    rw [T_C02_underspecified inp wf src b a hb ha hr]
+    symm
+    apply T_C02_underspecified inp' wf' src b a (hn ▸ hb) ha
+    intro hr'
+    exact hr (reach_congr inp' inp (fun a n h => (hadj a n).mpr h) src a hr')
+
+/-! the traced loop used by the correspondence computes the same outcome -/
+
+theorem axesCopyT_eq (inp : Inp) (as : List Nat) : ∀ d,
+    (axesCopyT inp d as).1 = (axesCopy inp d as).1 ∧ (axesCopyT inp d as).2.1 = (axesCopy inp d as).2 := by
+  induction as with
+  | nil => intro d; exact ⟨rfl, rfl⟩
+  | cons a as ih =>
+    intro d
+    obtain ⟨h1, h2⟩ := ih (axisCopy inp d a).1
+    unfold axesCopyT axesCopy
+    exact ⟨h1, by dsimp only; rw [h2]⟩
+
+theorem passT_eq (inp : Inp) (wl : List Nat) : ∀ d,
+    (passT inp d wl).1 = (pass inp d wl).1 ∧ (passT inp d wl).2.1 = (pass inp d wl).2.1 ∧
+      (passT inp d wl).2.2.1 = (pass inp d wl).2.2 := by
+  induction wl with
+  | nil => intro d; exact ⟨rfl, rfl, rfl⟩
+  | cons b rest ih =>
+    intro d
+    unfold passT pass
+    by_cases hb : BlockDef d b
+    · simp [hb]
+    · obtain ⟨e1, e2⟩ := axesCopyT_eq inp (axesOf b) d
+      simp only [hb, if_false]
+      have hbc : blockCopy inp d b = axesCopy inp d (axesOf b) := by unfold blockCopy; simp [hb]
+      rw [hbc]
+      obtain ⟨i1, i2, i3⟩ := ih (axesCopyT inp d (axesOf b)).1
+      rw [← e1, ← e2]
+      exact ⟨i1, by rw [i2], by rw [i3]⟩
+
+theorem T_C02_trace_outcome (inp : Inp) : ∀ (fuel : Nat) (d : Def) (wl : List Nat) (tr : List (Nat × Bool)),
+    (loopT inp fuel d wl tr).1 = (loop inp fuel d wl).2 := by
+  intro fuel
+  induction fuel with
+  | zero => intro d wl tr; rfl
+  | succ f ih =>
+    intro d wl tr
+    cases wl with
+    | nil => rfl
+    | cons b rest =>
+      obtain ⟨e1, e2, e3⟩ := passT_eq inp (b :: rest) d
+      unfold loopT loop
+      dsimp only
+      rw [e3]
+      split
+      · rw [ih, e1, e2]
+      · rfl
+
+/-- non-vacuity: three blocks in a row, the first chopped in all directions; x-axes (0,3,6) are not
+    connected (each its own family), y (1,4,7) and z (2,5,8) are chained -/
+def rowOfThree : Inp where
+  nBlocks := 3
+  adj := fun a => if a = 1 then [4] else if a = 4 then [1, 7] else if a = 7 then [4]
+    else if a = 2 then [5] else if a = 5 then [2, 8] else if a = 8 then [5] else []
+
+example : (propagate rowOfThree [0, 1, 2, 3, 6]).2 = .ok := by decide
+example : (propagate rowOfThree [0, 1, 2, 3]).2 = .undefined := by decide
+example : WF rowOfThree := ⟨by
+  intro a n h
+  show n < 3 * 3
+  simp only [rowOfThree] at h
+  repeat' split at h
+  all_goals simp at h
+  all_goals omega⟩
+
+end CBV.Prop0
+
+namespace CBV.Prop
+
+/-- on the faithful model: whatever the schedule (iteration orders `nbrs`, `coinc`) and whatever the
+    expansion oracle, a successful run gives every edge of a family that contains a chopped block direction
+    the total count of that chop — the count is a function of the family and the chop only -/
+theorem T_C02_count_schedule_free (inp inp' : Inp) (st st' : St)
+    (hchops : inp.chops = inp'.chops) (hn : inp.nBlocks = inp'.nBlocks)
+    (h : run inp = .ok st) (h' : run inp' = .ok st') (x : Nat) (hx : x < 3 * inp.nBlocks)
+    (hu : userChopped inp x = true) (w : Nat) (hf : Fam inp (4 * x) w) (hf' : Fam inp' (4 * x) w) :
+    count (specOf st w) = count (specOf st' w) := by
+  rw [T_C01_family_count inp st h x hx hu w hf,
+    T_C01_family_count inp' st' h' x (hn ▸ hx) (by unfold userChopped at hu ⊢; rw [← hchops]; exact hu) w hf']
+  unfold chopTotal; rw [hchops]
+
+end CBV.Prop
